@@ -10,7 +10,7 @@ from .. import batch as B, budget, par
 from ..repo import conditionalrewards as CR
 
 PROP = "C16"
-STEMS = ["g", "g_1", "robot_1_w2_l2", "a1_b2_c3", "coin_game_2_copy", "py_warmup"]
+STEMS = ["g", "g_1", "robot_1_w2_l2", "a1_b2_c3", "coin_game_2_copy", "py_warmup", "games.v2", "manual_robot_w2_l2_r5.0_rb10_lb7_tb29_"]
 STYLES = ["repr", "generator", "expressions"]
 _CACHE = {}
 # legal dictionary keys that a report writer built on string formatting may mangle
